@@ -4,6 +4,8 @@ from props import gen_props
 
 
 def run(ctx):
+    from props import gen_unbounded
+    gen_unbounded.run_reroute(ctx)     # parameter types: the extern resolved from the interface's own scope
     only = os.environ.get('PYVC_SHAPES')
     gen_props.run_property(ctx, 'C07', only.split(',') if only else None)
 
